@@ -365,6 +365,13 @@ def loadSteps (t : Tree) (w : World) : List Step :=
 
 def load (t : Tree) (w : World) : World := applySteps w (loadSteps t w)
 
+/-- a process that only loads the project (`dawn list`, the load of `dawn gc`): from the index when it is preferred and
+decodes — no effect at all — otherwise a full load -/
+def loadOp (t : Tree) (preferIndex : Bool) (w : World) : World :=
+  match preferIndex, w.index with
+  | true, .good _ => w
+  | _, _ => load t w
+
 /-! ## garbage collection -/
 
 /-- `Project.GC`: the records of the loaded labels, `index.json` and the (emptied) temp directory are kept -/
